@@ -14,10 +14,31 @@ use std::time::Duration;
 pub fn run(ctx: &Ctx) -> i32 {
     let mon = Mon::new();
     if ctx.mode.as_deref() == Some("stress") {
-        par_cases(ctx, &mon, "conc", 3, |cc, rng, l| {
+        par_cases(ctx, &mon, "conc", ctx.tier.pick(3, 8), |cc, rng, l| {
             concurrent(ctx, cc, rng, l);
         });
         return finish(ctx, &mon, Spec::new("exploration", "multi-thread concurrent mode only (sanitizer sub-run)").need("concurrent_reads_checked", 1000));
+    }
+    if ctx.mode.as_deref() == Some("miri") {
+        // Miri sub-run: a handful of sequential sequences (no real-time sleeps matter: Miri's clock is virtual)
+        par_cases(ctx, &mon, "seq", 1, |cc, rng, l| {
+            for i in 0..4 {
+                let mut r2 = Rng::derive(rng.next_u64(), "c16", i);
+                block_on(sequential(cc, &mut r2, l, i));
+            }
+        });
+        return finish(ctx, &mon, Spec::new("exploration", "sequential mode, 4 sequences (Miri sub-run)").need("reads_compared_with_database", 10));
+    }
+    if ctx.mode.as_deref() == Some("miri-mt") {
+        // Miri / TSan sub-run: 3 std threads share ONE cached manager (single writer per key, as in the
+        // concurrent mode), every thread drives its futures on its own current-thread runtime, so the
+        // interpreter sees real cross-thread accesses to the cache, the transaction log and its Relaxed
+        // flag.  Oracle: no read returns a value that was never written to that key, values seen by one
+        // reader never go backwards, and after quiescence every read equals the database.
+        for round in 0..ctx.tier.pick(1, 4) {
+            mini_threads(ctx.seed.wrapping_add(round), &mon);
+        }
+        return finish(ctx, &mon, Spec::new("exploration", "3 threads x 12 operations on one shared cached manager (Miri / TSan sub-run)").need("mt_reads_checked", 10));
     }
     if ctx.mode.as_deref() == Some("seq") {
         par_cases(ctx, &mon, "seq", 8, |cc, rng, l| {
@@ -582,5 +603,162 @@ fn concurrent(ctx: &Ctx, cc: &CaseCtx, rng: &mut Rng, l: &mut Local) {
         if lo != hi {
             l.count("concurrent_reads_overlapping_a_write", 1);
         }
+    }
+}
+
+/// 1 writer thread + 2 reader threads over one cached StorageManager; see the `miri-mt` mode.
+fn mini_threads(seed: u64, mon: &Mon) {
+    let db = XDb::new();
+    let mgr = StorageManager::new(db.clone(), Some(Duration::from_secs(30)), None, Some(Duration::from_secs(15)));
+    let keys = [Key::Node(0), Key::Vs(1), Key::Azks];
+    block_on(async {
+        for k in &keys {
+            mgr.set(mk_record(k, 1)).await.expect("initial set");
+        }
+    });
+    let tag_of = |r: &DbRecord| -> u64 {
+        match r {
+            DbRecord::TreeNode(t) => u64::from_be_bytes(t.latest_node.hash.0[..8].try_into().unwrap()),
+            DbRecord::ValueState(v) => String::from_utf8_lossy(&v.value.0).trim_start_matches("val").parse().unwrap_or(u64::MAX),
+            DbRecord::Azks(a) => a.latest_epoch,
+        }
+    };
+    let n_writes = 12u64;
+    let mut locals: Vec<Local> = vec![];
+    // per key: tag of the last write that COMPLETED / that was STARTED (single writer, increasing tags)
+    let completed: Arc<Vec<AtomicU64>> = Arc::new((0..3).map(|_| AtomicU64::new(1)).collect());
+    let started: Arc<Vec<AtomicU64>> = Arc::new((0..3).map(|_| AtomicU64::new(1)).collect());
+    let kidx = |k: &Key| -> usize { match k { Key::Node(_) => 0, Key::Vs(_) => 1, Key::Azks => 2 } };
+    let evlog: Arc<std::sync::Mutex<Vec<String>>> = Arc::new(std::sync::Mutex::new(vec![]));
+    std::thread::scope(|s| {
+        let mut hs = vec![];
+        {
+            let mgr = mgr.clone();
+            let keys = keys.clone();
+            let (completed, started) = (completed.clone(), started.clone());
+            let evlog = evlog.clone();
+            hs.push(s.spawn(move || {
+                let mut l = Local::default();
+                let mut rng = Rng::derive(seed, "c16-mt-writer", 0);
+                block_on(async {
+                    for t in 2..(2 + n_writes) {
+                        let k = rng.pick(&keys).clone();
+                        started[kidx(&k)].store(t, Ordering::SeqCst);
+                        let how = rng.below(4);
+                        evlog.lock().unwrap().push(format!("W start tag {t} {} via {}", key_kind(&k), ["txn", "batch_set", "set+flush", "set"][how as usize]));
+                        match how {
+                            0 => {
+                                // through a transaction
+                                // a commit needs the epoch record in the log (it is written last)
+                                started[2].store(t, Ordering::SeqCst);
+                                if mgr.begin_transaction() {
+                                    let mut ok = mgr.set(mk_record(&k, t)).await.is_ok();
+                                    if k != Key::Azks {
+                                        ok &= mgr.set(mk_record(&Key::Azks, t)).await.is_ok();
+                                    }
+                                    // always committed: readers on other threads legitimately see the pending value
+                                    // (the property allows "or the pending transaction value"), so a rollback
+                                    // would make their reads go backwards without any fault of the cache
+                                    match mgr.commit_transaction().await {
+                                        Ok(_) if ok => completed[2].store(t, Ordering::SeqCst),
+                                        other => {
+                                            l.inconclusive(format!("miri-mt writer: transaction for tag {t} did not commit: {:?}", other.err()));
+                                            return;
+                                        }
+                                    }
+                                } else {
+                                    l.inconclusive("miri-mt writer: begin_transaction refused although this is the only writer");
+                                    return;
+                                }
+                            }
+                            1 => {
+                                let _ = mgr.batch_set(vec![mk_record(&k, t)]).await;
+                            }
+                            2 => {
+                                let _ = mgr.set(mk_record(&k, t)).await;
+                                mgr.flush_cache().await;
+                            }
+                            _ => {
+                                let _ = mgr.set(mk_record(&k, t)).await;
+                            }
+                        }
+                        completed[kidx(&k)].store(t, Ordering::SeqCst);
+                        evlog.lock().unwrap().push(format!("W done  tag {t}"));
+                        l.count("mt_writes", 1);
+                    }
+                });
+                l
+            }));
+        }
+        for r in 0..2u64 {
+            let mgr = mgr.clone();
+            let keys = keys.clone();
+            let (completed, started) = (completed.clone(), started.clone());
+            let evlog = evlog.clone();
+            hs.push(s.spawn(move || {
+                let mut l = Local::default();
+                let mut rng = Rng::derive(seed, "c16-mt-reader", r);
+                block_on(async {
+                    for _ in 0..12 {
+                        let k = rng.pick(&keys).clone();
+                        let floor = completed[kidx(&k)].load(Ordering::SeqCst);
+                        evlog.lock().unwrap().push(format!("R{r} begin {} floor {floor}", key_kind(&k)));
+                        let got = if rng.chance(1, 3) {
+                            match &k {
+                                Key::Node(i) => mgr.batch_get::<TreeNodeWithPreviousValue>(&[NodeKey(node_label(*i))]).await.ok().and_then(|v| v.into_iter().next()),
+                                _ => mgr_get(&mgr, &k).await.ok().flatten(),
+                            }
+                        } else {
+                            mgr_get(&mgr, &k).await.ok().flatten()
+                        };
+                        l.eval(1);
+                        l.count("mt_reads_checked", 1);
+                        match got {
+                            Some(rec) => {
+                                let t = tag_of(&rec);
+                                evlog.lock().unwrap().push(format!("R{r} got tag {t} {}", key_kind(&k)));
+                                let ceil = started[kidx(&k)].load(Ordering::SeqCst);
+                                if t == 0 || t > ceil {
+                                    l.violation(format!("C16:mt/{}/value-never-written", key_kind(&k)), format!("a concurrent read returned tag {t}, but the newest write started so far is {ceil}"), json!({"seed": seed}));
+                                }
+                                // interval rule: a read that began after write `floor` completed must not return
+                                // anything older (a pending transaction value that disappears again while the
+                                // commit is in flight is allowed by the property, so no monotonicity per reader)
+                                if t < floor {
+                                    l.violation(format!("C16:mt/{}/stale-read", key_kind(&k)), format!("a read that began after the write of tag {floor} had completed returned the older tag {t}"), json!({"seed": seed, "events": evlog.lock().unwrap().clone()}));
+                                }
+                                l.case(format!("mt/{}/{}", key_kind(&k), t.min(3)).as_bytes(), true);
+                            }
+                            None => l.violation(format!("C16:mt/{}/read-returned-nothing", key_kind(&k)), "a read of an existing key returned nothing", json!({"seed": seed})),
+                        }
+                    }
+                });
+                l
+            }));
+        }
+        for h in hs {
+            if let Ok(l) = h.join() {
+                locals.push(l);
+            }
+        }
+    });
+    // quiescent: every read through the manager equals the database (the transaction is closed)
+    let mut l = Local::default();
+    block_on(async {
+        if mgr.is_transaction_active() {
+            let _ = mgr.rollback_transaction();
+        }
+        for k in &keys {
+            let via = mgr_get(&mgr, k).await.ok().flatten();
+            let raw = raw_get(&db.inner, k).await;
+            l.eval(1);
+            if via != raw {
+                l.violation(format!("C16:mt/{}/final-read-differs", key_kind(k)), format!("after all threads finished, the manager returns {} but the database holds {}", summarize(&via), summarize(&raw)), json!({"seed": seed}));
+            }
+        }
+    });
+    locals.push(l);
+    for l in locals {
+        mon.absorb(l);
     }
 }
